@@ -155,6 +155,19 @@ pub fn run(ctx: &Ctx) {
             }
             ck!(&format!("const.point.EIGHT_TORSION[{}]", j), aff_ok && ord == orders[j] && real.compress().0 == t8[j].compress(), "EIGHT_TORSION[{}]: coordinates ok {}, order {}", j, aff_ok, ord);
             ctx.record(&format!("const.EIGHT_TORSION/{}", j), &real.compress().0);
+            // the constants used as operands (reads every coordinate incl. T), public API only
+            let bt = (&kc::ED25519_BASEPOINT_POINT + &real).compress().0;
+            ck!(&format!("const.point.B+EIGHT_TORSION[{}]", j), bt == b.add(&t8[j]).compress(), "B + EIGHT_TORSION[{}]", j);
+            ctx.record(&format!("const.B+EIGHT_TORSION/{}", j), &bt);
+            for i in 0..8 {
+                let s = (&kc::EIGHT_TORSION[i] + &real).compress().0;
+                let d = (&kc::EIGHT_TORSION[i] - &real).compress().0;
+                ck!(&format!("const.point.EIGHT_TORSION[{}]+[{}]", i, j), s == t8[(i + j) % 8].compress() && d == t8[(8 + i - j) % 8].compress(), "EIGHT_TORSION[{}] +- EIGHT_TORSION[{}]", i, j);
+                ctx.record(&format!("const.EIGHT_TORSION.add/{}/{}", i, j), &s);
+            }
+            let m3 = (&real * &Scalar::from(3u8)).compress().0;
+            ck!(&format!("const.point.3*EIGHT_TORSION[{}]", j), m3 == t8[(3 * j) % 8].compress(), "3 * EIGHT_TORSION[{}]", j);
+            ctx.record(&format!("const.EIGHT_TORSION.mul3/{}", j), &m3);
         }
         ck!("const.point.identity", EdwardsPoint::identity().compress().0 == ed::ID.compress(), "identity");
     }
@@ -183,6 +196,9 @@ pub fn run(ctx: &Ctx) {
                     let sc = hook::scalar_from_raw_bytes(s.to_le32());
                     let got = guarded(|| (kc::ED25519_BASEPOINT_TABLE * &sc).compress().0);
                     ck!(&format!("table.basepoint.select[{}][{}]", i, j), got == Ok(m.compress()), "mul_base({} * 256^{})", j, i);
+                    if let Ok(g) = &got {
+                        ctx.record(&format!("T:ed.basepoint_table.select/{}/{}", i, j), g);
+                    }
                     // negated selection: 16^(2i+1) - j*16^(2i)  (digits -j, +1)
                     let sneg = U::pow2(4 * (2 * i + 1)).sub(&U::from_u64(j as u64).shl(8 * i));
                     if sneg.bits() <= 255 && i < 31 {
@@ -215,10 +231,23 @@ pub fn run(ctx: &Ctx) {
             let want = ed::mul_base(&U::from_u64(k));
             let got = guarded(|| EdwardsPoint::vartime_double_scalar_mul_basepoint(&Scalar::ZERO, &a, &Scalar::from(k)).compress().0);
             ck!(&format!("table.odd_lookup.select[{}]", k), got == Ok(want.compress()), "0*A + {}*B on dispatch {}", k, ctx.dispatch);
+            if let Ok(g) = &got {
+                ctx.record(&format!("ed.vartime_double_base.b/{}", k), g);
+            }
+            // 256 + k: digit k is added to a non-identity accumulator (reads the table entry's 2dxy)
+            let sp = U::from_u64(256 + k);
+            let gotp = guarded(|| EdwardsPoint::vartime_double_scalar_mul_basepoint(&Scalar::ZERO, &a, &real::scalar(&sp)).compress().0);
+            ck!(&format!("table.odd_lookup.select_acc[{}]", k), gotp == Ok(ed::mul_base(&sp).compress()), "0*A + (256+{})*B on dispatch {}", k, ctx.dispatch);
+            if let Ok(g) = &gotp {
+                ctx.record(&format!("ed.vartime_double_base.b/{}", 256 + k), g);
+            }
             // 256 - k: NAF(8) digits (-k, then +1 at position 8)
             let s = U::from_u64(256 - k);
             let got = guarded(|| EdwardsPoint::vartime_double_scalar_mul_basepoint(&Scalar::ZERO, &a, &real::scalar(&s)).compress().0);
             ck!(&format!("table.odd_lookup.select_neg[{}]", k), got == Ok(ed::mul_base(&s).compress()), "0*A + (256-{})*B on dispatch {}", k, ctx.dispatch);
+            if let Ok(g) = &got {
+                ctx.record(&format!("ed.vartime_double_base.b/{}", 256 - k), g);
+            }
         }
     }
 
